@@ -489,3 +489,281 @@ func predicateOf(v ssa.Value, flag func(ssa.Value) bool, depth int) bool {
 	}
 	return false
 }
+
+func init() {
+	register(&Rule{ID: "S7.skip", Min: 2, Text: "the undo/redo skip guard tests the element the operation acts on: every call of operations.isRemovedOrOrphaned in an Execute method is handed the element looked up by the operation's subject ticket — Remove: the element found by createdAt (the one being removed, not its container); Set: the container found by parentCreatedAt — so an undo whose target a peer already removed is skipped instead of producing a reverse operation that resurrects it on one side only",
+		Run: func(x *Ctx) {
+			guard := x.P.FnObj(opsPkg + ".isRemovedOrOrphaned")
+			find := x.P.FnObj(crdtPkg + ".(*Root).FindByCreatedAt")
+			if guard == nil || find == nil {
+				x.C.Unresolved(x.id(), "isRemovedOrOrphaned / Root.FindByCreatedAt")
+				return
+			}
+			subject := map[string]string{"Remove": "createdAt", "Set": "parentCreatedAt"}
+			n := 0
+			for _, fn := range x.P.FuncsIn(opsPkg) {
+				for _, c := range callsToIn(fn, guard) {
+					n++
+					op := ""
+					if r := fn.Signature.Recv(); r != nil {
+						if pt, ok := r.Type().(*types.Pointer); ok {
+							if nt, ok := pt.Elem().(*types.Named); ok {
+								op = nt.Obj().Name()
+							}
+						}
+					}
+					want, known := subject[op]
+					if !known {
+						x.fail(fmt.Sprintf("op=%s skip-guard-subject", op), x.pos(c), "a skip guard appeared in an operation for which no subject is recorded: read it and add it to the table")
+						continue
+					}
+					f := x.P.Field(opsPkg + "." + op + "." + want)
+					ok := f != nil && prog.Reaches(paramArg(c, 1), func(w ssa.Value) bool {
+						fc, isC := prog.Strip(w).(*ssa.Call)
+						return isC && sameFunc(prog.CallObj(fc), find) && prog.LoadedField(paramArg(fc, 0)) == f
+					})
+					x.check(ok, fmt.Sprintf("op=%s skip-guard-subject=%s", op, want), x.pos(c), "the guard tests the element found by "+want,
+						"the undo/redo skip guard of "+op+" does not test the element found by "+want+": an undo of an element a peer already removed executes and its redo re-creates the element on the peers only")
+				}
+			}
+			for op := range subject {
+				if fn := x.fn(opsPkg + ".(*" + op + ").Execute"); fn != nil && len(callsToIn(fn, guard)) == 0 {
+					x.fail(fmt.Sprintf("op=%s skip-guard-present", op), x.fpos(fn), op+".Execute no longer consults isRemovedOrOrphaned during undo/redo")
+				}
+			}
+			if n < 2 {
+				x.C.Vacuous(x.id()+" guard sites", n, 2)
+			}
+		}})
+}
+
+func init() {
+	register(&Rule{ID: "HIST.sym", Min: 3, Text: "identity reconciliation treats both stacks alike: every History.Reconcile* method reads undoStack and redoStack and hands both to the same consumer (the same replace closure / callee): an undo followed by a redo must find the re-ticketed identity in whichever stack its reverse operation was pushed to",
+		Run: func(x *Ctx) {
+			hT := x.P.Named(docPkg + ".History")
+			uF, rF := x.P.Field(docPkg+".History.undoStack"), x.P.Field(docPkg+".History.redoStack")
+			if hT == nil || uF == nil || rF == nil {
+				x.C.Unresolved(x.id(), "document.History.undoStack/redoStack")
+				return
+			}
+			n := 0
+			for _, fn := range x.P.FuncsIn(docPkg) {
+				r := fn.Signature.Recv()
+				if r == nil || !strings.HasPrefix(fn.Name(), "Reconcile") {
+					continue
+				}
+				if pt, ok := r.Type().(*types.Pointer); !ok || !isNamed(pt.Elem(), hT) {
+					continue
+				}
+				n++
+				consumers := func(f *types.Var) map[string]bool {
+					out := map[string]bool{}
+					for _, b := range fn.Blocks {
+						for _, ins := range b.Instrs {
+							v, ok := ins.(ssa.Value)
+							if !ok || prog.LoadedField(v) != f {
+								continue
+							}
+							if _, isLoad := v.(*ssa.UnOp); !isLoad {
+								continue
+							}
+							for _, ref := range *v.Referrers() {
+								switch t := ref.(type) {
+								case *ssa.DebugRef:
+								case ssa.CallInstruction:
+									cc := t.Common()
+									if o := prog.CallObj(t); o != nil {
+										out["call "+o.FullName()] = true
+									} else if cc.IsInvoke() {
+										out["invoke "+cc.Method.Name()] = true
+									} else {
+										out["closure "+cc.Value.Name()] = true
+									}
+								default:
+									out["inline "+fmt.Sprintf("%T", ref)] = true
+								}
+							}
+						}
+					}
+					return out
+				}
+				cu, cr := consumers(uF), consumers(rF)
+				same := len(cu) > 0 && len(cu) == len(cr)
+				for k := range cu {
+					if !cr[k] {
+						same = false
+					}
+				}
+				x.check(same, "func="+prog.FnName(fn)+" both-stacks-same-consumer", x.fpos(fn), "undoStack and redoStack are processed by the same consumer",
+					fmt.Sprintf("the two stacks are not processed alike (undoStack: %v, redoStack: %v): an identity re-ticketed by undo/redo stays stale in one stack and the next redo/undo targets an element that does not exist", keysOf(cu), keysOf(cr)))
+			}
+			if n < 3 {
+				x.C.Vacuous(x.id()+" Reconcile methods", n, 3)
+			}
+		}})
+}
+
+func keysOf(m map[string]bool) []string {
+	out := make([]string, 0, len(m))
+	for k := range m {
+		out = append(out, k)
+	}
+	sort.Strings(out)
+	return out
+}
+
+func init() {
+	register(&Rule{ID: "J.op", Min: 15, Text: "every local mutation of the model is shipped: in pkg/document/json (the editing proxies) a call of a mutating method of the CRDT model (mutators are computed) on an element is (a) made inside a creator callback or on an object this code has just constructed (still private), or (b) paired with pushing an operation onto the change context in the same function (change.Context.Push, directly or through a callee, before or after the mutation on every path); and (c) an element that was already handed to an operation — the result of a function that takes a creator callback and pushes — is mutated again only if another operation is pushed afterwards. A mutation without its operation changes the editing copy only: the operation, the document and every peer keep the old state",
+		Run: func(x *Ctx) {
+			push := x.P.FnObj("pkg/document/change.(*Context).Push")
+			if push == nil {
+				x.C.Unresolved(x.id(), "change.Context.Push")
+				return
+			}
+			mut := x.mutators()
+			pushers := x.reaching(push)
+			exempt := map[string]string{
+				"CreateRange": "splits text nodes at a position without changing content; every replica performs the same split when it executes the Edit/Style that carries the position",
+			}
+			isPushCall := func(d ssa.CallInstruction) bool {
+				if o := prog.CallObj(d); o != nil && sameFunc(o, push) {
+					return true
+				}
+				for _, g := range x.P.Callees(d) {
+					if pushers[g] {
+						return true
+					}
+				}
+				return false
+			}
+			isNew := func(w ssa.Value) bool {
+				c, ok := prog.Strip(w).(*ssa.Call)
+				if !ok {
+					return false
+				}
+				o := prog.CallObj(c)
+				return o != nil && (strings.HasPrefix(o.Name(), "New") || strings.HasPrefix(o.Name(), "new"))
+			}
+			jsonFns := x.P.FuncsIn("pkg/document/json")
+			// a parameter is private when every caller passes a just-constructed object or its own private parameter
+			var privateParam func(fn *ssa.Function, idx int, depth int) bool
+			privateParam = func(fn *ssa.Function, idx int, depth int) bool {
+				if depth > 3 {
+					return false
+				}
+				sites := 0
+				for _, g := range jsonFns {
+					for _, c := range prog.CallsIn(g) {
+						if c.Common().StaticCallee() != fn || idx >= len(c.Common().Args) {
+							continue
+						}
+						sites++
+						a := c.Common().Args[idx]
+						ok := prog.Reaches(a, func(w ssa.Value) bool {
+							if isNew(w) {
+								return true
+							}
+							if pm, isP := w.(*ssa.Parameter); isP {
+								for i, q := range pm.Parent().Params {
+									if q == pm && (pm.Parent() == fn && i == idx || privateParam(pm.Parent(), i, depth+1)) {
+										return true
+									}
+								}
+							}
+							return false
+						})
+						if !ok {
+							return false
+						}
+					}
+				}
+				return sites > 0
+			}
+			n := 0
+			cnt := map[string]int{}
+			for _, fn := range jsonFns {
+				isCreator := false
+				if fn.Parent() != nil && fn.Signature.Results().Len() == 1 {
+					if nt, ok := fn.Signature.Results().At(0).Type().(*types.Named); ok && nt.Obj().Name() == "Element" {
+						isCreator = true
+					}
+				}
+				for _, c := range prog.CallsIn(fn) {
+					var callee *ssa.Function
+					for _, g := range x.P.Callees(c) {
+						if mut[g] || (g.Origin() != nil && mut[g.Origin()]) {
+							callee = g
+						}
+					}
+					if callee == nil || callee.Signature.Recv() == nil {
+						continue
+					}
+					if strings.Contains(prog.FnName(callee), "crdt.Root)") {
+						continue // Root bookkeeping (RegisterElement, RegisterGCPair, …) is not content
+					}
+					n++
+					cnt[prog.FnName(fn)+callee.Name()]++
+					key := fmt.Sprintf("func=%s mutation=%s#%d shipped", prog.FnName(fn), callee.Name(), cnt[prog.FnName(fn)+callee.Name()])
+					if why, ok := exempt[callee.Name()]; ok {
+						x.C.Add(obTrivial(x.id(), key, x.pos(c), "exempt: "+why))
+						continue
+					}
+					if isCreator {
+						x.hold(key, x.pos(c), "inside a creator callback: the element is not yet part of an operation")
+						continue
+					}
+					recv := recvOf(c)
+					private := prog.Reaches(recv, func(w ssa.Value) bool {
+						if isNew(w) {
+							return true
+						}
+						if pm, isP := w.(*ssa.Parameter); isP && pm.Parent() == fn {
+							for i, q := range fn.Params {
+								if q == pm {
+									return privateParam(fn, i, 0)
+								}
+							}
+						}
+						return false
+					})
+					if private {
+						x.hold(key, x.pos(c), "the receiver was just constructed by this code: it is not part of the document yet")
+						continue
+					}
+					// (c) already published: the receiver derives from the result of a pusher that takes a creator callback
+					published := prog.DependsOn(recv, func(w ssa.Value) bool {
+						d, ok := prog.Strip(w).(*ssa.Call)
+						if !ok || !isPushCall(d) {
+							return false
+						}
+						for _, a := range d.Call.Args {
+							if _, isSig := a.Type().Underlying().(*types.Signature); isSig {
+								return true
+							}
+						}
+						return false
+					})
+					after, before := false, false
+					for _, d := range prog.CallsIn(fn) {
+						if d == c || !isPushCall(d) {
+							continue
+						}
+						if x.P.PostDominates(d, c) {
+							after = true
+						}
+						if prog.Dominates(d, c) {
+							before = true
+						}
+					}
+					if published {
+						x.check(after, key, x.pos(c), "the element was already handed to an operation, and another operation is pushed after this mutation", "the element was already copied into an operation (it is the result of a call that pushed it) and is mutated through "+prog.FnName(callee)+" afterwards without a further operation: only the local editing copy sees the mutation")
+						continue
+					}
+					x.check(after || before, key, x.pos(c), "the mutation is paired with an operation pushed in the same function", "the model is mutated through "+prog.FnName(callee)+" and no operation is pushed in this function: only the local editing copy changes")
+				}
+			}
+			if n < 15 {
+				x.C.Vacuous(x.id()+" mutation sites", n, 15)
+			}
+		}})
+}
